@@ -465,7 +465,7 @@ func replayDet(raw json.RawMessage) vdrv.Verdict {
 
 func runDet(t *testing.T) {
 	H.Rule("det", "rapid: projgen projects of 8–60 files (ESM modules with static/dynamic/re-export edges and cycles, 1–3 entry points sharing modules, identical top-level names, `_`-suffixed properties, CSS with @import/url(), file/copy/dataurl/text/json assets, legal comments, warnings and errors spread over files, inject, stdin, externals) × options (bundle, splitting, format, minify subsets, sourcemap modes, metafile, mangle-props ± cache, name templates, public path, legal comments, banner/footer). Baseline build with GOMAXPROCS=1 and no delays, then 4 schedules with GOMAXPROCS 1/2/4/16, drawn per-file load delays 0–3 ms and per-specifier resolve delays (pass-through plugins), 0–2 concurrent sibling builds of other projects, ≥1 run from a copy at a longer absolute path. Oracle: output paths (relative), contents, Hash, metafile, mangle cache (sorted JSON) and the ordered diagnostics must be byte-identical to the baseline. Non-trivial = ≥8 input files and ≥2 distinct load-arrival orders observed among the runs.")
-	H.SetupRapid("det", H.N(480, 10000))
+	H.SetupRapid("det", H.N(720, 10000))
 	rapid.Check(t, func(rt *rapid.T) {
 		c := genCase(rt)
 		H.Report(rt, "det", caseKey(c), c, judge(c))
